@@ -69,7 +69,7 @@ def one_grammar(spec, R, batch, stats, quick):
     b = GR.build_raw(spec) if "source" in spec else GR.build(spec)
     try:
         g = extract_grammar(b.considered, b.start)
-        decl = declared_grammar(list(b.classes.values()), b.start)
+        decl = b.oracle()
         d = int(g.get_min_tree_depth()) + 2
         if not any(c["abstract"] and c["name"] == b.spec["start"] for c in b.spec["classes"]):
             d += 1
